@@ -151,6 +151,22 @@ func c12Strings(c *enumx.Ctx) {
 			checkRec(c, r)
 		}
 	})
+	// every byte value 0x01..0xFF inside an otherwise plain value (a special case for ONE byte
+	// value is invisible to a class alphabet)
+	for b := 1; b < 256; b++ {
+		for _, shape := range []string{"x%sy", "%sx", "/a/%s"} {
+			v := fmt.Sprintf(shape, string([]byte{byte(b)}))
+			if !inDomain(v) || isPlaceholder(v) {
+				continue
+			}
+			for _, r := range recordsFor(v) {
+				if !c.Mine() {
+					continue
+				}
+				checkRec(c, r)
+			}
+		}
+	}
 	// proctitle with NUL separators
 	for _, v := range []string{"a\x00b", "sshd: root\x00", "/bin/sh\x00-c\x00echo hi", "\x00", "a\x00\x00b", "x\x00\xff"} {
 		if !c.Mine() {
